@@ -203,7 +203,11 @@ class DataFrameSchemaBackend(PandasSchemaBackend):
             # make sure the schema component mutations are reverted after
             # validation
             _orig_dtype = schema_component.dtype
-            _orig_coerce = schema_component.coerce
+            # MultiIndex.coerce is derived from its levels: save the flag that the
+            # setter writes, not the derived value
+            _orig_coerce = getattr(
+                schema_component, "_coerce", schema_component.coerce
+            )
 
             try:
                 if schema.dtype is not None:
